@@ -128,9 +128,15 @@ package fieldmask
 
 //@ func (cur *FieldMask) GetPath(desc *thrift_reflection.TypeDescriptor, path string) (*FieldMask, bool)
 //@   requires desc != nil && wfSDs()
-//@   loop 1 invariant desc != nil && 0 <= it.pos && it.pos <= len(it.src)
-//@   loop 1.1 invariant desc != nil && et != nil && cur != nil && 0 <= it.pos && it.pos <= len(it.src)
-//@   loop 1.2 invariant desc != nil && et != nil && cur != nil && 0 <= it.pos && it.pos <= len(it.src)
+//@   site call:desc.GetStructDescriptor assert !desc.IsTypedef()
+//@   site call:desc.IsList assert !desc.IsTypedef()
+//@   site call:desc.IsMap assert !desc.IsTypedef()
+//@   loop 1 invariant desc != nil && !desc.IsTypedef() && 0 <= it.pos && it.pos <= len(it.src)
+//@   loop 1.1 invariant desc != nil && et != nil && !et.IsTypedef() && cur != nil && 0 <= it.pos && it.pos <= len(it.src)
+//@   loop 1.2 invariant desc != nil && et != nil && !et.IsTypedef() && cur != nil && 0 <= it.pos && it.pos <= len(it.src)
+
+// (GetPath, above: a descriptor that is asked for its kind has had its typedefs followed -- the site assertions -- so that
+// path membership agrees with addPath, which unwraps at every step.)
 
 // ---- mask construction helpers (storage.go): what addPath builds the trie with ----
 // A slot is created with the requested type in the mask's own colour, an unset slot (typ == 0) is (re)initialised, a
